@@ -128,6 +128,15 @@ def body_fuse_free(S, spec):
         if len(fa) >= 2:
             g = tuple(fa[:2])
             af = a.fuse(g)
+            if not ferm:
+                # both strategies, also with an extra single-axis group listed after the real group
+                af_c = a.fuse(g, mode="concat")
+                same_array(S, f"fuse-free:concat=insert[{mode}]", af_c, a.fuse(g, mode="insert"))
+                rest_axes = [i for i in range(a.ndim) if i not in g]
+                if rest_axes:
+                    x1 = a.fuse(g, (rest_axes[-1],), mode="insert")
+                    x2 = a.fuse(g, (rest_axes[-1],), mode="concat")
+                    same_array(S, f"fuse-free+singlet:concat=insert[{mode}]", x2, x1)
             # positions after fusing: group sits at min(g); contracted axes shift
             newpos = {}
             position = min(g)
